@@ -35,6 +35,8 @@ def scale_chain(cx, fn, loop, var):
 
 
 def run(cx):
+    from ..rules import exits_of
+    exits_of(cx, 'EXITS', ['io.FCSData.hist_bins', 'plot._LogicleTransform.__init__'])
     fn = Fn(cx, 'io.FCSData.hist_bins')
     loops = [f for f in fn.stmts(ast.For) if isinstance(f.iter, ast.Call) and dotted(f.iter.func) == 'zip'
              and len(f.iter.args) == 3]
